@@ -41,7 +41,10 @@ def tied (C : Ctx) (s : State) : List Pid :=
   if (argmin C s).any (fun p => decide (C.budget < s.spent + C.cost p)) then [] else argmin C s
 
 def buy (C : Ctx) (s : State) (t : Pid) : State :=
-  { load := fun i => if C.app i t then (match newMax C s t with | some x => x | none => s.load i) else s.load i
+  -- the new maximum load is computed ONCE (a `let` outside the closure): recomputing it inside the load function would
+  -- re-evaluate all earlier rounds for every supporter
+  let x := newMax C s t
+  { load := fun i => if C.app i t then (match x with | some x => x | none => s.load i) else s.load i
     pool := s.pool.filter (fun q => q != t)
     alloc := s.alloc ++ [t]
     spent := s.spent + C.cost t }
